@@ -323,9 +323,71 @@ func runC06(w *World, r *Report) {
 		r.Check(okS && n > 0, "C06-R4", cons, fn.Pos(), fmt.Sprintf("%d error return(s), each with a non-sentinel constant id", n), "an error return carries -1 (or a computed id): handlePack tests `== -1` before the error and silently skips the message instead of pausing the task")
 	}
 
+	// ---------- R7: the reader's error receiver exists before the reader starts
+	r.Rule("C06-R7", "the reader's error receiver is started before the reader", "in startInternal the goroutine that receives from collectionReader.ErrorChan() (and pauses the task) is started before collectionReader.StartRead: the reader reports start-up failures with a non-blocking send, which is lost without a receiver", 1)
+	if si := w.Func(pkgServer, "MetaCDC", "startInternal"); si != nil {
+		var goRecv ssa.Instruction
+		var start ssa.Instruction
+		eachInstr(si, func(in ssa.Instruction) {
+			if g, ok := in.(*ssa.Go); ok {
+				var lit *ssa.Function
+				if mc, isMC := g.Call.Value.(*ssa.MakeClosure); isMC {
+					lit, _ = mc.Fn.(*ssa.Function)
+				} else if f, isF := g.Call.Value.(*ssa.Function); isF {
+					lit = f
+				}
+				if lit != nil {
+					eachInstr(lit, func(x ssa.Instruction) {
+						if c, isC := x.(*ssa.Call); isC && callSym(c.Common()).name == "ErrorChan" {
+							goRecv = g
+						}
+					})
+				}
+			}
+			if c, ok := in.(*ssa.Call); ok {
+				if s := callSym(c.Common()); s.name == "StartRead" {
+					// the collection reader: the value NewCollectionReader returned
+					if rv := callRecv(c.Common()); rv != nil || c.Call.IsInvoke() {
+						var recvV ssa.Value = rv
+						if c.Call.IsInvoke() {
+							recvV = c.Call.Value
+						}
+						for _, y := range backSlice(recvV, SliceOpts{MaxDepth: 5}) {
+							if cc, isCC := y.(*ssa.Call); isCC && callSym(cc.Common()).name == "NewCollectionReader" {
+								start = c
+							}
+						}
+					}
+				}
+			}
+		})
+		if goRecv == nil || start == nil {
+			r.Undecided("C06-R7", "(*MetaCDC).startInternal | error receiver / StartRead", si.Pos(), "the goroutine receiving from ErrorChan or the StartRead call was not found")
+		} else {
+			r.Check(instrDominates(goRecv, start), "C06-R7", "(*MetaCDC).startInternal | error receiver before StartRead", goRecv.Pos(), "started before the reader", "the goroutine that turns reader errors into a pause is started after StartRead: failures of the initial scan (a collection that cannot be started downstream) are sent to nobody, the task stays Running and the collection is silently not replicated")
+		}
+	} else {
+		r.Undecided("C06-R7", "startInternal", 0, "anchor not found")
+	}
+
 	// ---------- R6: a pause always stops the task's readers, whatever the store says
 	r.Rule("C06-R6", "pausing stops the readers regardless of the store", "in pauseTaskWithReason the removal and invocation of the task's quit function is reachable from the failure outcome of the persisted update (only a task unknown in memory returns early)", 1)
 	if pf := w.Func(pkgServer, "MetaCDC", "pauseTaskWithReason"); pf != nil {
+		{
+			var u0 *ssa.Call
+			eachInstr(pf, func(in ssa.Instruction) {
+				if c, ok := in.(*ssa.Call); ok && callSym(c.Common()) == (sym{pkgStore, "", "UpdateTaskState"}) && u0 == nil {
+					u0 = c
+				}
+			})
+			okAll := u0 != nil
+			eachInstr(pf, func(in ssa.Instruction) {
+				if ret, ok := in.(*ssa.Return); ok && u0 != nil && !instrDominates(u0, ret) && ret.Block().Comment != "recover" && len(ret.Block().Preds) > 0 {
+					okAll = false
+				}
+			})
+			r.Check(okAll, "C06-R6", "(*MetaCDC).pauseTaskWithReason | the persisted update is attempted on every call", pf.Pos(), "store.UpdateTaskState dominates every return", "a path returns without attempting the persisted state update (e.g. because the task already looks paused in memory): a pause whose first store write failed is never repaired, get/list keep reporting Running, and the cleanup that follows the update is skipped")
+		}
 		var upd, gar *ssa.Call
 		eachInstr(pf, func(in ssa.Instruction) {
 			if c, ok := in.(*ssa.Call); ok {
